@@ -96,7 +96,7 @@ example : isclose (1 / 100) [([(0, 1)], ⟨10, 0⟩), ([(1, 3)], ⟨3, 0⟩)]
   rw [Bool.eq_false_iff, Ne, spec_relClose_iff]
   simp [GQ.normSq]; norm_num
 
-/-! ## `MajoranaOperator.__eq__` (numpy.isclose per term) -/
+/-! ## `MajoranaOperator.__eq__` (numpy.isclose per term, both ways for shared terms) -/
 
 /-- The coded loop over ANY iteration order of `self.terms.keys() | other.terms.keys()` is the
 conjunction over all terms of the per-term test — independent of order and of other terms. -/
@@ -105,35 +105,37 @@ theorem majEq_per_term (atol rtol : Rat) (a b : MOp) (order : List MTerm)
     majEqWith order atol rtol a b = true ↔ ∀ t, majTermClose atol rtol a b t = true :=
   majEqWith_iff atol rtol a b order hp
 
-/-- Soundness: coded equality implies the symmetric statement
-`|x - y| ≤ atol + rtol · max(|x|, |y|)` for every term. -/
-theorem majEq_sound (atol rtol : Rat) (h : 0 ≤ atol) (a b : MOp) (order : List MTerm)
-    (hp : order.Perm (unionKeys a b)) (he : majEqWith order atol rtol a b = true) :
-    Spec.C02.MajEq atol rtol a b := fun t =>
-  majTermClose_sound atol rtol h a b t ((majEqWith_iff atol rtol a b order hp).1 he t)
+/-- The coded `==` (HEAD: shared terms are tested with `numpy.isclose` both ways) is true exactly
+when every term's coefficients satisfy `|x - y| ≤ atol + rtol · max(|x|, |y|)` (shared) or
+`|x| ≤ atol` (one-sided): the symmetric per-term statement `Spec.C02.MajEq`. -/
+theorem majEq_iff_statement (atol rtol : Rat) (h : 0 ≤ atol) (a b : MOp) (order : List MTerm)
+    (hp : order.Perm (unionKeys a b)) :
+    majEqWith order atol rtol a b = true ↔ Spec.C02.MajEq atol rtol a b := by
+  rw [majEqWith_iff atol rtol a b order hp]
+  unfold Spec.C02.MajEq
+  constructor <;> intro hh t
+  · exact (majTermClose_iff atol rtol h a b t).1 (hh t)
+  · exact (majTermClose_iff atol rtol h a b t).2 (hh t)
 
-/-- FULL STATEMENT (false for the code, finding F02c): `majEq a b ↔ Spec.C02.MajEq a b`.
-Proved: completeness when no shared coefficient pair lies in the window where numpy.isclose
-is asymmetric (relative to `other` only). -/
-theorem majEq_complete_partial (atol rtol : Rat) (h : 0 ≤ atol) (a b : MOp) (order : List MTerm)
-    (hp : order.Perm (unionKeys a b))
-    (hw : ∀ t x y, Dict.get? a t = some x → Dict.get? b t = some y →
-      npIsclose atol rtol y x = true → npIsclose atol rtol x y = true)
-    (hs : Spec.C02.MajEq atol rtol a b) : majEqWith order atol rtol a b = true :=
-  (majEqWith_iff atol rtol a b order hp).2 fun t =>
-    majTermClose_complete atol rtol h a b t (hw t) (hs t)
-
-/-- the statement itself is symmetric … -/
+/-- the statement is symmetric … -/
 theorem spec_majEq_symm (atol rtol : Rat) (a b : MOp) :
     Spec.C02.MajEq atol rtol a b ↔ Spec.C02.MajEq atol rtol b a := by
   unfold Spec.C02.MajEq
   constructor <;> intro h t <;> rw [majCoefClose_symm] <;> exact h t
 
-/-- … the code is not (F02c): `MajoranaOperator((0,), 1e6) == MajoranaOperator((0,), 1e6 + 10.0001)`
-is True, the reversed comparison False (rtol = 1e-5, atol = 1e-8). -/
-theorem majEq_not_symmetric_counterexample :
+/-- … and so is the code now: `(a == b) = (b == a)` (repaired finding F02c: before commit
+282d5e66 `MajoranaOperator((0,), 1e6) == MajoranaOperator((0,), 1e6 + 10.0001)` was True and the
+reversed comparison False). -/
+theorem majEq_symm (atol rtol : Rat) (h : 0 ≤ atol) (a b : MOp) :
+    majEq atol rtol a b = majEq atol rtol b a :=
+  bool_eq_of_iff ((majEq_iff_statement atol rtol h a b _ (List.Perm.refl _)).trans
+    ((spec_majEq_symm atol rtol a b).trans
+      (majEq_iff_statement atol rtol h b a _ (List.Perm.refl _)).symm))
+
+/-- regression witness of F02c on the Model: both directions now agree (and are True). -/
+theorem majEq_former_counterexample_symmetric :
     majEq (1 / 100000000) (1 / 100000) [([0], ⟨1000000, 0⟩)] [([0], ⟨1000000 + 100001 / 10000, 0⟩)] = true ∧
-    majEq (1 / 100000000) (1 / 100000) [([0], ⟨1000000 + 100001 / 10000, 0⟩)] [([0], ⟨1000000, 0⟩)] = false := by
+    majEq (1 / 100000000) (1 / 100000) [([0], ⟨1000000 + 100001 / 10000, 0⟩)] [([0], ⟨1000000, 0⟩)] = true := by
   constructor
   · simp [majEq, majEqWith, unionKeys, Dict.keys, Dict.contains, Dict.get?, majTermClose, npIsclose,
       sqrtLeAffine, GQ.normSq]
